@@ -203,8 +203,8 @@ def exact_deck_streets(rng, unit):
     opn = rng.choice([Opening.HIGH_HAND, Opening.LOW_HAND])
     streets = [Street(False, (False,) * (h0 - 1) + (True,), 0, False, op1, unit, cap)]
     for _ in range(rng.randint(max(3, 5 - h0), 5)):
-        streets.append(Street(rng.random() < 0.8, (rng.random() < 0.8,), 0, False, opn,
-                              unit * rng.choice([1, 2]), cap))
+        streets.append(Street(rng.random() < 0.8, (rng.random() < 0.8,) * rng.choice([1, 1, 1, 2]),
+                              rng.choice([0, 0, 0, 1]), False, opn, unit * rng.choice([1, 2]), cap))
     hts = (phands.StandardHighHand,) if deck is royal else (phands.ShortDeckHoldemHand,)
     return tuple(streets), deck, hts, n, 'stud'
 
@@ -221,6 +221,14 @@ def gen_config(rng: random.Random, seed_tag: int, force_variant: str | None = No
         force_variant = 'custom'
     elif director == 'ante_allin':
         force_variant = rng.choice(['FR', 'FR', 'F7S', 'F7S/8', 'NT', 'FT', 'PO'])
+    elif director == 'stud8':
+        force_variant = rng.choice(['F7S', 'F7S/8', 'FR'])
+    elif director == 'bigpost':
+        force_variant = rng.choice(['NT', 'NT', 'PO', 'FT'])
+    elif director == 'deck_boundary':
+        force_variant = rng.choice(['F2L3D', 'F2L3D', 'FB', 'N2L1D', 'NR'])
+    elif director == 'chop':
+        force_variant = 'NT'
     variant = force_variant or rng.choice(profile['variants'] if profile.get('variants') else
                                           list(VARIANTS) + ([] if profile.get('predefined') else ['custom'] * 2))
     autos, auto_mode = gen_autos(rng)
@@ -234,6 +242,15 @@ def gen_config(rng: random.Random, seed_tag: int, force_variant: str | None = No
     divchunk = rng.choice([1, 1, 1, 1, 1, 5])
     warnerr = rng.random() < 0.5
     trim = rng.random() < 0.5
+    if director == 'bigpost':
+        mode, warnerr = Mode.CASH_GAME, False
+    if director == 'deck_boundary' and variant == 'NR':
+        mode, boards = Mode.CASH_GAME, 1
+    if director == 'chop':
+        rake_t, rake_kind = (rng.choice([5, 10]), 100, rng.choice([None, 3]), True), 'nfnd'
+        boards = 1
+        autos = tuple(a for a in Automation if a not in (Automation.HOLE_DEALING,))
+        auto_mode = 'chop'
     meta = {'variant': variant, 'autos': auto_mode, 'mode': mode.name, 'boards': boards,
             'rake': rake_kind, 'divchunk': divchunk, 'warnerr': warnerr, 'trim': trim}
     rake_f = impl.make_rake(*rake_t)
@@ -273,6 +290,21 @@ def gen_config(rng: random.Random, seed_tag: int, force_variant: str | None = No
             antes, ak = 0, 'none'
         if director == 'rule96':
             n, antes, ak, stacks, sk = rule96_table(rng, unit)
+        if director == 'stud8':
+            # a full stud table: with nobody folding the deck runs out and the last street is a shared card
+            n = MAX_PLAYERS[variant]
+            stacks, sk = [rng.randint(60, 200) * unit for _ in range(n)], 'deep'
+        if director == 'deck_boundary':
+            n = MAX_PLAYERS[variant] if variant != 'NR' else rng.randint(4, 5)
+            stacks, sk = [rng.randint(30, 100) * unit for _ in range(n)], 'deep'
+        if director == 'bigpost':
+            n = rng.randint(4, 6)
+            stacks, sk = [rng.randint(40, 120) * unit for _ in range(n)], 'deep'
+            antes, ak = 0, 'none'
+        if director == 'chop':
+            n = rng.randint(2, 3)
+            stacks, sk = [rng.choice([20, 50]) * unit] * n, 'equal'
+            antes, ak = 0, 'none'
         if director == 'ante_allin':
             # some players cannot cover (or exactly cover) the ante: they are all-in before a card is dealt
             n = rng.randint(3, min(6, MAX_PLAYERS[variant]))
@@ -294,11 +326,20 @@ def gen_config(rng: random.Random, seed_tag: int, force_variant: str | None = No
             game = cls(autos, trim, antes, bring_in, unit, 2 * unit, **common)
         elif variant in TWO_BETS:
             blinds, bk = gen_blinds(rng, n, unit)
+            if director == 'bigpost':
+                sb_, bb_ = max(1, unit // 2), unit
+                blinds, bk = tuple([sb_, bb_, -(bb_ + rng.randint(1, bb_))] + [0] * (n - 3)), 'bigpost'
             game = cls(autos, trim, antes, blinds, unit, 2 * unit, **common)
         else:
             blinds, bk = gen_blinds(rng, n, unit)
             if director == 'rule96':
                 blinds, bk = (max(1, unit // 2), unit), 'std'
+            if director == 'chop':
+                blinds, bk = (max(1, unit // 2), unit), 'std'
+            if director == 'bigpost':
+                # a late-seated player (negative entry) posts more than the big blind
+                sb_, bb_ = max(1, unit // 2), unit
+                blinds, bk = tuple([sb_, bb_, -(bb_ + rng.randint(1, bb_))] + [0] * (n - 3)), 'bigpost'
             game = cls(autos, trim, antes, blinds, unit, **common)
         kw = dict(automations=game.automations, deck=game.deck, hand_types=game.hand_types,
                   streets=game.streets, betting_structure=game.betting_structure,
@@ -424,6 +465,31 @@ def valid_ops(rng: random.Random, s: State, tune: dict) -> list[tuple[str, float
             if mx > mn:
                 out.append((f'cbr {rng.randint(mn, mx)}', w * 0.3))
                 out.append((f'cbr {min(mx, mn + rng.randint(0, max(1, mn)))}', w * 0.3))
+    d = tune.get('director')
+    if d == 'bigpost' and s.actor_indices and s.street_index == 0:
+        a = s.actor_index
+        # the late-seated poster holds the largest bet, un-faced: let him fold it (cash game, warning ignored)
+        if s.bets[a] == max(s.bets) and list(s.bets).count(max(s.bets)) == 1 and s.can_fold():
+            out.append(('fold', 60.0))
+    if d == 'deck_boundary':
+        if s.can_deal_hole():
+            j = s.hole_dealee_index
+            pj = len(s.hole_dealing_statuses[j])
+            if pj >= 2:
+                out.append((f'deal_hole #{pj} -', 40.0))       # all the cards owed in one request, by count
+        if s.can_stand_pat_or_discard():
+            own = list(s.hole_cards[s.stander_pat_or_discarder_index])
+            if own:
+                out.append((f'draw {_cards_text(own)}', 25.0))
+                out.append((f'draw {_cards_text(own[:-1]) if len(own) > 1 else _cards_text(own)}', 10.0))
+        if s.can_select_runout_count():
+            out.append(('runout 3 -', 20.0))
+            out.append(('runout 2 -', 20.0))
+    if d == 'chop' and s.can_deal_hole():
+        j = s.hole_dealee_index
+        want = tune.get('chop_cards', {}).get(j)
+        if want and len(s.hole_dealing_statuses[j]) >= 2 and all(c in s.deck_cards for c in want):
+            out.append((f'deal_hole {_cards_text(want)} {j}', 200.0))
     if tune.get('director') == 'rule96' and s.actor_indices and s.street_index == 0:
         a = s.actor_index
         short = s.stacks[a] + s.bets[a] <= tune.get('short_cap', 0)
